@@ -93,6 +93,14 @@ pub fn model_session(model: &mut Model, stmts: &[SpannedExpr], inputs: Option<&T
     model.ask(&req)
 }
 
+pub fn model_session_negnan(model: &mut Model, stmts: &[SpannedExpr], inputs: Option<&TV>, fuel: usize) -> String {
+    let inp = match inputs {
+        Some(i) => i.wire(),
+        None => "-".to_string(),
+    };
+    model.ask(&format!("session-negnan {} {} ({})", fuel, inp, stmts.iter().map(wire::expr).collect::<Vec<_>>().join(" ")))
+}
+
 /// Compare the real evaluator with the model on `src`.  Returns the real session (for the
 /// caller's own oracles).  Statements on which the model ran out of fuel are not compared.
 pub fn check_session(model: &mut Model, rep: &mut Report, src: &str, inputs: Option<&TV>, keyp: &str) -> Option<Session> {
@@ -120,6 +128,10 @@ pub fn check_session(model: &mut Model, rep: &mut Report, src: &str, inputs: Opt
     let m = model_session(model, &stmts, inputs, 4000);
     if m.contains("(fuel)") {
         rep.count("model-out-of-fuel");
+    } else if m != real && (src.contains("median") || src.contains("percentile")) && model_session_negnan(model, &stmts, inputs, 4000) == real {
+        // the total order of median / percentile sees the sign of a NaN produced by arithmetic, which is
+        // platform-defined and not observable in the model: the session agrees under the other convention
+        rep.count("nan-sign-convention");
     } else if m != real {
         rep.finding("model", "session", src, &format!("impl={} model={}", short(&real), short(&m)), &format!("{}.model.session", keyp));
     }
